@@ -77,11 +77,15 @@ type vC15PubServer struct {
 }
 
 func (f *vC15PubServer) Recv() (*client.PublishRequest, error) {
-	r, ok := <-f.reqs
-	if !ok {
-		return nil, io.EOF
+	select {
+	case r, ok := <-f.reqs:
+		if !ok {
+			return nil, io.EOF
+		}
+		return r, nil
+	case <-f.ctx.Done(): // the client cancelled the stream
+		return nil, f.ctx.Err()
 	}
-	return r, nil
 }
 
 func (f *vC15PubServer) Send(r *client.PublishResponse) error {
@@ -92,6 +96,7 @@ func (f *vC15PubServer) Send(r *client.PublishResponse) error {
 // ---- one held subscription -----------------------------------------------------
 
 type vC15Sub struct {
+	owner  string // model client that made the call
 	stream string // model name
 	group  bool
 	cancel context.CancelFunc
@@ -127,6 +132,7 @@ type vC15Run struct {
 	version    int
 	lastFile   [][]string // what was last written to the policy file
 	renameNext bool       // the next policy revision is renamed over the live file instead of written in place
+	tornNext   bool       // the next policy revision is written with an unparsable line in its middle
 	subs       []*vC15Sub
 }
 
@@ -242,7 +248,7 @@ func (r *vC15Run) subscribe(clientID, stream string, resume, grp bool, consumer 
 	if grp {
 		req.Consumer = &client.Consumer{GroupId: r.real("g1"), ConsumerId: consumer, GroupEpoch: epoch}
 	}
-	sub := &vC15Sub{stream: stream, group: grp, cancel: cancel, done: make(chan struct{})}
+	sub := &vC15Sub{owner: clientID, stream: stream, group: grp, cancel: cancel, done: make(chan struct{})}
 	go func() {
 		sub.err = r.srv.api.Subscribe(req, fs)
 		close(sub.done)
@@ -293,8 +299,15 @@ func (r *vC15Run) writePolicy(entries [][]string) {
 	r.version++
 	var b strings.Builder
 	fmt.Fprintf(&b, "p, probe, probe, v%d-%d\n", r.id, r.version)
-	for _, e := range entries {
+	for k, e := range entries {
+		if r.tornNext && k == (len(entries)+1)/2 {
+			// the write stopped here once and was resumed by something else: a line no CSV reader accepts
+			fmt.Fprintf(&b, "p, \"%s, %s\n", r.who(e[0]), r.real(e[1]))
+		}
 		fmt.Fprintf(&b, "p, %s, %s, %s\n", r.who(e[0]), r.real(e[1]), e[2])
+	}
+	if r.tornNext && len(entries) == 0 {
+		b.WriteString("p, \"probe, probe\n")
 	}
 	live := filepath.Join(r.dir, "policy.csv")
 	if r.renameNext {
@@ -331,12 +344,13 @@ func (r *vC15Run) reload() string {
 	}
 	for attempt := 0; attempt < attempts; attempt++ {
 		failed0 := atomic.LoadInt64(&vC15Log.failed)
+		loadable := r.fileThere()
 		if err := syscall.Kill(os.Getpid(), syscall.SIGHUP); err != nil {
 			r.t.Fatalf("INCONCLUSIVE: kill: %v", err)
 		}
 		deadline := time.Now().Add(wait)
 		for time.Now().Before(deadline) {
-			if r.fileThere() {
+			if loadable {
 				if ok, _ := r.srv.api.enforcePolicy("probe", "probe", probe); ok {
 					return "Ok"
 				}
@@ -351,8 +365,13 @@ func (r *vC15Run) reload() string {
 	return "Ignored"
 }
 
+// fileThere: the policy file can be loaded - decided by the loader the server starts with (a fresh casbin
+// enforcer over the same model and policy files), not by the driver's knowledge of what it wrote
 func (r *vC15Run) fileThere() bool {
-	_, err := os.Stat(filepath.Join(r.dir, "policy.csv"))
+	if _, err := os.Stat(filepath.Join(r.dir, "policy.csv")); err != nil {
+		return false
+	}
+	_, err := casbin.NewEnforcer(filepath.Join(r.dir, "model.conf"), filepath.Join(r.dir, "policy.csv"))
 	return err == nil
 }
 
@@ -643,7 +662,7 @@ func (r *vC15Run) callTLS(c map[string]interface{}) (string, string) {
 		if err != nil {
 			scancel()
 		} else {
-			held := &vC15Sub{stream: vStr(c, "s"), group: vBool(c, "grp"), cancel: scancel, done: make(chan struct{})}
+			held := &vC15Sub{owner: vStr(c, "c"), stream: vStr(c, "s"), group: vBool(c, "grp"), cancel: scancel, done: make(chan struct{})}
 			go func() {
 				for {
 					if _, e := sub.Recv(); e != nil {
@@ -736,6 +755,41 @@ collect:
 		}
 	}
 	return res, detail
+}
+
+// cancelCall: the client cancels the streaming call it made (PublishAsync session / subscription); reports
+// whether a confirmed subscription of that call was still being served
+func (r *vC15Run) cancelCall(c map[string]interface{}) bool {
+	who := vStr(c, "c")
+	if vStr(c, "m") == "PublishAsync" {
+		if se := r.sess[who]; se != nil {
+			se.cancel() // the gRPC stream's context ends; Recv fails like on a cancelled stream
+			select {
+			case <-se.done:
+			case <-time.After(vC15Deadline):
+				r.t.Fatalf("INCONCLUSIVE: PublishAsync handler did not return after cancel")
+			}
+			delete(r.sess, who)
+		}
+		return false
+	}
+	held := false
+	rest := r.subs[:0:0]
+	for _, sub := range r.subs {
+		if sub.owner != who || sub.stream != vStr(c, "s") || sub.group != vBool(c, "grp") {
+			rest = append(rest, sub)
+			continue
+		}
+		held = held || sub.alive()
+		sub.cancel()
+		select {
+		case <-sub.done:
+		case <-time.After(vC15Deadline):
+			r.t.Fatalf("INCONCLUSIVE: subscription handler did not return after cancel")
+		}
+	}
+	r.subs = rest
+	return held
 }
 
 func (r *vC15Run) closeSessions() {
@@ -1010,7 +1064,17 @@ func vC15Main(t *testing.T, tlsMode bool) {
 				r.writePolicy(vC15Entries(s["policy"]))
 				r.renameNext = false
 			case "BreakFile":
-				os.Remove(filepath.Join(dir, "policy.csv"))
+				if vStrDef(s, "kind", "removed") == "torn" {
+					r.tornNext = true
+					r.writePolicy(vC15Entries(s["policy"]))
+					r.tornNext = false
+				} else {
+					os.Remove(filepath.Join(dir, "policy.csv"))
+				}
+			case "Cancel":
+				c := s["call"].(map[string]interface{})
+				args["call"] = c
+				args["held"] = r.cancelCall(c)
 			case "Reload":
 				obs["res"] = r.reload()
 			}
